@@ -27,7 +27,7 @@ MaxOf(S) == CHOOSE x \in S : \A y \in S : y <= x
 \* have hundreds of pages)
 LOCAL SeqX == INSTANCE SequencesExt
 Flatten(ss) == SeqX!FlattenSeq(ss)
-Pick(s, keep) == LET idx == SelectSeq([i \in 1..Len(s) |-> i], LAMBDA i : i \in keep)
+Pick(s, keep) == LET idx == SeqX!SetToSortSeq(keep, LAMBDA a, b : a < b)
                  IN [j \in 1..Len(idx) |-> s[idx[j]]]
 
 (***************************************************************************)
@@ -52,7 +52,8 @@ Unfold(gr, t, path) ==
                    ELSE <<>>)
 
 FirstOccurrences(ps) ==
-  Pick(ps, {i \in 1..Len(ps) : \A j \in 1..(i - 1) : Last(ps[j]) # Last(ps[i])})
+  LET node == [i \in 1..Len(ps) |-> Last(ps[i])]
+  IN Pick(ps, {i \in 1..Len(ps) : \A j \in 1..(i - 1) : node[j] # node[i]})
 
 RefWalk(gr) == IF gr = <<>> THEN <<>> ELSE FirstOccurrences(Unfold(gr, 1, <<>>))
 
@@ -70,7 +71,7 @@ RefPages(gr, attrs) ==
 \* (maxpages = 0: no limit), in order
 Selected(i, pagenos, maxpages) == (pagenos = {} \/ i \in pagenos) /\ (maxpages = 0 \/ i < maxpages)
 RefSelect(np, pagenos, maxpages) ==
-  SelectSeq([i \in 1..np |-> i - 1], LAMBDA i : Selected(i, pagenos, maxpages))
+  LET idx == SeqX!SetToSortSeq({i \in 0..(np - 1) : Selected(i, pagenos, maxpages)}, LAMBDA a, b : a < b) IN idx
 
 (***************************************************************************)
 (* Pure steps of the implementation (pdfpage.py), shared by the machine in *)
